@@ -43,7 +43,9 @@ SIZE_BOUNDS = {
 RULE = {
     "C12": (
         "Hypothesis-generated component trees: grid, then a grid meter or 1-4 direct grid successors; below a meter 0-3 children "
-        "from {meter, battery inverter with 1-2 batteries, PV inverter, EV charger, CHP(s) under a dedicated meter}; every graph "
+        "from {meter, battery inverter with 1-2 batteries, two battery inverters sharing 1-2 batteries, PV inverter, EV charger, "
+        "CHP(s) under a dedicated meter}; battery / PV / EV formulas are also generated for a generated *subset* of the devices "
+        "(a pool over some components); every graph "
         "goes through the repository's own validation (rejected graphs are counted, not used). Devices get powers on separate "
         "decimal scales (battery +-1..9, PV -10..-90, EV 100..900, CHP -1000..-9000, unmetered load 10000..90000 at every meter "
         "that is not dedicated to one device type), meters read the sum below plus their load. Each of the seven generators, "
@@ -57,7 +59,7 @@ ASSUMPTIONS = [
     "all component streams are delivered in lock-step and are valid (fallback behaviour is C19's subject)",
     "unmetered load exists only at meters not dedicated to one device type (the statement's physical model)",
 ]
-MIN_LABELS = {"C12": {"no_grid_meter": 0.25, "grid_meter": 0.25, "nested_meters": 0.3, "mixed_meter": 0.3}}
+MIN_LABELS = {"C12": {"pool_over_subset": 0.1, "inverters_sharing_batteries": 0.1, "no_grid_meter": 0.25, "grid_meter": 0.25, "nested_meters": 0.3, "mixed_meter": 0.3}}
 
 FORMULAS = {
     "grid": GridPowerFormula,
@@ -75,6 +77,8 @@ def _subtree(depth: int, max_depth: int, max_children: int) -> st.SearchStrategy
     leaves = [
         st.fixed_dictionaries({"k": st.just("batinv"), "nbat": st.sampled_from([1, 1, 2]),
                                "p": st.tuples(digit, digit), "sign": st.sampled_from([1, -1])}),
+        st.fixed_dictionaries({"k": st.just("batinv2"), "nbat": st.sampled_from([1, 2]),
+                               "p": st.tuples(digit, digit), "q": st.tuples(digit, digit), "sign": st.sampled_from([1, -1])}),
         st.fixed_dictionaries({"k": st.just("pvinv"), "p": st.tuples(digit, digit)}),
         st.fixed_dictionaries({"k": st.just("ev"), "p": st.tuples(digit, digit)}),
     ]
@@ -99,6 +103,7 @@ def strategy(tier: str, pid: str = "C12") -> st.SearchStrategy[Any]:
         "grid_meter": st.booleans(),
         "gm_load": st.tuples(st.integers(1, 9), st.integers(1, 9)),
         "top": top,
+        "subset": st.lists(st.booleans(), min_size=12, max_size=12),
     })
 
 
@@ -110,6 +115,7 @@ class _Graph:
         self.children: dict[int, list[int]] = {}
         self.spec: dict[int, dict[str, Any]] = {}
         self.nid = 1
+        self.shared = False
 
     def add(self, comp_fn: Any, kind: str, parent: int | None, spec: dict[str, Any] | None = None) -> int:
         cid = self.nid
@@ -129,6 +135,15 @@ class _Graph:
             inv = self.add(fakes.bat_inverter, "batinv", parent, node)
             for _ in range(node["nbat"]):
                 self.add(fakes.battery, "bat", inv)
+        elif k == "batinv2":
+            # two battery inverters sharing the same batteries
+            inv1 = self.add(fakes.bat_inverter, "batinv", parent, node)
+            inv2 = self.add(fakes.bat_inverter, "batinv", parent, dict(node, p=node["q"]))
+            for _ in range(node["nbat"]):
+                bat = self.add(fakes.battery, "bat", inv1)
+                self.conns.add(Connection(inv2, bat))
+                self.children[inv2].append(bat)
+            self.shared = True
         elif k == "pvinv":
             self.add(fakes.pv_inverter, "pvinv", parent, node)
         elif k == "ev":
@@ -222,6 +237,31 @@ def run_case(case: Any, pid: str) -> Verdict:
     evs = {n for n, k in g.kind.items() if k == "ev"}
     pvs = {n for n, k in g.kind.items() if k == "pvinv"}
     ids_for = {"battery": bats, "pv": pvs, "ev": evs}
+    # pools over a subset of the devices (what a user's *Pool with component_ids passes)
+    mask = case.get("subset", [True] * 12)
+    inverters = sorted(n for n, k in g.kind.items() if k == "batinv")
+    bat_groups: dict[frozenset[int], set[int]] = {}
+    for inv in inverters:
+        bat_groups.setdefault(frozenset(g.children[inv]), set()).add(inv)
+    sub_inverters: set[int] = set()
+    sub_bats: set[int] = set()
+    for i, (group_bats, invs) in enumerate(sorted(bat_groups.items(), key=lambda kv: sorted(kv[0]))):
+        if mask[i % 12]:
+            sub_bats |= set(group_bats)
+            sub_inverters |= invs
+    subsets: dict[str, set[int]] = {}
+    if sub_bats and sub_bats != bats:
+        subsets["battery_subset"] = sub_bats
+    sub_pv = {n for i, n in enumerate(sorted(pvs)) if mask[(i + 3) % 12]}
+    if sub_pv and sub_pv != pvs:
+        subsets["pv_subset"] = sub_pv
+    sub_ev = {n for i, n in enumerate(sorted(evs)) if mask[(i + 7) % 12]}
+    if sub_ev and sub_ev != evs:
+        subsets["ev_subset"] = sub_ev
+    if subsets:
+        v.labels.add("pool_over_subset")
+    if g.shared:
+        v.labels.add("inverters_sharing_batteries")
 
     async def scenario() -> None:
         api = fakes.FakeApi(g.comps, g.conns)
@@ -230,9 +270,10 @@ def run_case(case: Any, pid: str) -> Verdict:
             sub_chan: Any = Broadcast(name="c12-sub")
             sub_rx = sub_chan.new_receiver(limit=10000)
             engines: list[tuple[str, bool, Any, Any]] = []
-            for name, cls in FORMULAS.items():
+            todo = list(FORMULAS.items()) + [(n, FORMULAS[n.split("_")[0]]) for n in subsets]
+            for name, cls in todo:
                 for fb in (True, False):
-                    cfg = FormulaGeneratorConfig(component_ids=ids_for.get(name), allow_fallback=fb)
+                    cfg = FormulaGeneratorConfig(component_ids=subsets.get(name, ids_for.get(name)), allow_fallback=fb)
                     try:
                         eng = cls(f"ns-{name}-{fb}", registry, sub_chan.new_sender(), cfg).generate()
                         engines.append((name, fb, eng, eng.new_receiver()))
@@ -258,6 +299,12 @@ def run_case(case: Any, pid: str) -> Verdict:
                     "chp": sum(x for n, x in val.items() if g.kind[n] == "chp"),
                 }
                 truth["producer"] = truth["pv"] + truth["chp"]
+                for name, ids in subsets.items():
+                    kind = {"battery_subset": "batinv", "pv_subset": "pvinv", "ev_subset": "ev"}[name]
+                    if kind == "batinv":
+                        truth[name] = sum(val[n] for n in sub_inverters)
+                    else:
+                        truth[name] = sum(val[n] for n in ids)
                 ts = world.T0.replace(second=which)
                 sent = set()
                 for req in requests:
